@@ -425,7 +425,9 @@ impl<'tcx> Dumper<'tcx> {
                 mir::ProjectionElem::Deref => obj(vec![("k", s("deref"))]),
                 mir::ProjectionElem::Field(f, fty) => {
                     let mut fname = Json::Null;
+                    let mut of = Json::Null;
                     if let ty::Adt(def, _) = pty.ty.kind() {
+                        of = s(self.ppath(def.did()));
                         let vidx = pty.variant_index.unwrap_or(rustc_abi::FIRST_VARIANT);
                         if (vidx.as_usize()) < def.variants().len() {
                             let vd = def.variant(vidx);
@@ -434,7 +436,7 @@ impl<'tcx> Dumper<'tcx> {
                             }
                         }
                     }
-                    obj(vec![("k", s("field")), ("i", n(f.as_u32())), ("name", fname), ("ty", s(self.ty_str(fty)))])
+                    obj(vec![("k", s("field")), ("i", n(f.as_u32())), ("name", fname), ("ty", s(self.ty_str(fty))), ("of", of)])
                 }
                 mir::ProjectionElem::Index(l) => obj(vec![("k", s("index")), ("local", n(l.as_u32()))]),
                 mir::ProjectionElem::ConstantIndex { offset, min_length, from_end } => obj(vec![
